@@ -66,6 +66,40 @@ func checkC13(c *Check) {
 	if n1 < 2 || n2 < 1 {
 		c.Undecidedf("PAIRING", "sites", "-", "expected ≥2 Indent sites and ≥1 Activated site in the visitor, found %d/%d", n1, n2)
 	}
+	// a direct Deactivate in the visitor closes an activation the same function
+	// opened: on every path to it an Activate of the same participant precedes
+	// (must-analysis). A Deactivate that can run without it closes the activation
+	// of a participant that is still executing — the endpoint already in progress.
+	nd := 0
+	for _, f := range vis {
+		isAct := func(i ssa.Instruction) bool {
+			return methodCallNamed(i, cmdutilsPkg, "SequenceDiagramWriter", "Activate")
+		}
+		isDeact := func(i ssa.Instruction) bool {
+			return methodCallNamed(i, cmdutilsPkg, "SequenceDiagramWriter", "Deactivate")
+		}
+		hs := mustHold(f, isAct, isDeact)
+		k := 0
+		eachInstr(f, func(_ *ssa.BasicBlock, i ssa.Instruction) {
+			if !isDeact(i) {
+				return
+			}
+			nd++
+			k++
+			key := fmt.Sprintf("%s|Deactivate#%d closes an activation opened here", fnName(f), k)
+			paired := hs.At(i)
+			if !paired {
+				// guarded by a flag that is set where the Activate is made: no feasible
+				// path reaches the Deactivate without passing an Activate
+				target := i
+				paired = !feasibleReach(f, nil, nil, func(j ssa.Instruction) bool { return j == target }, isAct)
+			}
+			c.Cond(paired, "PAIRING", key, p.pos(i.Pos()),
+				"every path to this Deactivate passes an Activate in the same function",
+				"a path reaches this Deactivate without an Activate in the same function: it closes the activation of a participant that is still running (the endpoint in progress), which then sends its remaining calls while inactive and is never deactivated at its return")
+		})
+	}
+	c.Counts["direct_deactivate_sites"] = nd
 	// the Activated closure deactivates at most once: its flag is cleared before Deactivate
 	for _, f := range p.RepoFuncs() {
 		if f.Parent() != nil && fnName(f.Parent()) == "(*pkg/cmdutils.SequenceDiagramWriter).Activated" {
